@@ -37,7 +37,8 @@ Add(r) ==
   /\ (flows # <<>> => r \in ListRows /\ \A j \in 1..Len(flows) : flows[j] \in ListRows)
   /\ flows' = Append(flows, r) /\ data' = Append(data, Rows[r]) /\ UNCHANGED phase /\ Emit(<<>>)
 
-ExpEv(j) == [k |-> "exp", i |-> j] @@ data[j].e @@ [c |-> data[j].c]
+\* the list is handed over newest first (start time (n - j) * 10 at position j): list order is not start order
+ExpEv(j) == [k |-> "exp", i |-> j, ts |-> (Len(flows) - j) * 10] @@ data[j].e @@ [c |-> data[j].c]
 
 \* make_har(flows) + json.dumps: observed through the projection of the original flows
 Export ==
